@@ -57,3 +57,8 @@ Print Assumptions C15_not_contacted.
 Theorem C15_no_token_without_ts : forall sigfrom selfsig q h, sign sigfrom selfsig q = SOk h -> h_ts h = 0%Z.
 Proof. exact no_token_without_ts. Qed.
 Print Assumptions C15_no_token_without_ts.
+
+From Coq Require Import Permutation.
+Theorem C15_aggregate_order_independent : forall rs rs' n, Permutation rs rs' -> aggregate rs n = aggregate rs' n.
+Proof. exact aggregate_order_independent. Qed.
+Print Assumptions C15_aggregate_order_independent.
